@@ -98,6 +98,49 @@ def duplicates(
     return fin(ok)
 
 
+def resubmitted(c0: int, c1: int, rev: bool, s0: int, s1: int, s2: int, s3: int, s4: int, s5: int, s6: int, s7: int) -> bool:
+    """A job fails, is submitted again (legitimate re-submission), and the
+    same configuration is submitted a third time while the re-submission is
+    running or done: the third submission returns the second one's output and
+    creates no job.
+
+    post: _
+    """
+    import experimaestro.scheduler.base as SB
+
+    K = SHARD["K"]
+    if c0 == 0:
+        return True  # the first submission must fail
+    sc = Scenario("one", [c0], rev=rev)
+    sc.recodes = [c1]
+    sc.start(program=[("submit", 0), ("resubmit", 0), ("redup", 0), ("wait",)])
+    sc.run([s0, s1, s2, s3, s4, s5, s6, s7], K)
+    if sc.harness_errors():
+        raise RuntimeError(str(sc.harness_errors())[:300])
+    ok = True
+    if not sc.re_jobs:
+        return True
+    second = sc.re_jobs[0]
+    for (key, cfg, out) in sc.dups:
+        third = cfg.__xpm__.job
+        if c1 == 0:
+            # the re-submission cannot fail: the third submission is a duplicate of it
+            if out is not sc.re_outputs[0]:
+                rt.note("FAIL: the duplicate of a re-submitted (non-failed) job did not return its output")
+                ok = False
+            if sc.xp.scheduler.jobs.get(second.identifier) is not second:
+                rt.note("FAIL: the duplicate replaced the re-submitted job in the registry")
+                ok = False
+            if len(sc.launches(("redup", 0))) != 0:
+                rt.note("FAIL: the duplicate was launched")
+                ok = False
+    if sc.hung or sc.deadlock:
+        ok = False
+    sc.finish()
+    rt.scratch_cleanup()
+    return fin(ok)
+
+
 def prior_run(
     c0: int, c1: int, c2: int, rev: bool, p0: bool, p1: bool, p2: bool,
     s0: int, s1: int, s2: int, s3: int, s4: int, s5: int, s6: int, s7: int,
@@ -192,6 +235,7 @@ def conditions(tier):
         for m in range(1, 2 ** n):
             pr = [(m >> i) & 1 for i in range(n)]
             conds.append({"name": f"prior/{sh}/m{''.join(map(str, pr))}", "func": "prior_run", "shard": {"shape": sh, "K": K, "prior": pr}, "timeout": tmo})
+    conds.append({"name": "resubmitted/one", "func": "resubmitted", "shard": {"K": K + 2}, "timeout": tmo})
     conds.append({"name": "overlap/two", "func": "overlap", "shard": {"procs": 2}, "timeout": tmo})
     conds.append({"name": "overlap/three", "func": "overlap", "shard": {"procs": 3}, "timeout": tmo})
     conds.append({"name": "prior/chain2-other-experiment", "func": "prior_run", "shard": {"shape": "chain2", "K": K, "first_name": "earlier"}, "timeout": tmo})
